@@ -38,7 +38,17 @@ type Parser struct {
 	cursor        int
 	line          int
 	blockHandlers map[string]blockHandlerFunc
+	// exprDepth counts the expressions being parsed inside one another
+	exprDepth int
 }
+
+// maxExpressionDepth bounds how deeply expressions may nest (parentheses, unary
+// operators, arguments, list and hash elements) and how long a chain of binary operators
+// may be. The parser and the evaluator walk an expression recursively, and a Go stack
+// that overflows ends the process: a source of a few megabytes of "(" or "not " did that.
+const maxExpressionDepth = 10000
+
+var errExpressionTooDeep = fmt.Errorf("expression nested more than %d levels deep", maxExpressionDepth)
 
 type blockHandlerFunc func(*Parser) (Node, error)
 
@@ -356,6 +366,12 @@ func (p *Parser) parseOuterTemplate() ([]Node, error) {
 //	unary      := ("not" | "-" | "+") unary | postfix
 //	postfix    := primary { "." name [ "(" args ")" ] | "[" expression "]" | "|" filter [ "(" args ")" ] }
 func (p *Parser) parseExpression() (Node, error) {
+	p.exprDepth++
+	defer func() { p.exprDepth-- }()
+	if p.exprDepth > maxExpressionDepth {
+		return nil, errExpressionTooDeep
+	}
+
 	expr, err := p.parseBinary(PREC_OR)
 	if err != nil {
 		return nil, err
@@ -568,7 +584,13 @@ func (p *Parser) parseUnary() (Node, error) {
 		(token.Type == TOKEN_OPERATOR && (token.Value == "-" || token.Value == "+")) {
 		p.tokenIndex++
 
+		p.exprDepth++
+		if p.exprDepth > maxExpressionDepth {
+			p.exprDepth--
+			return nil, errExpressionTooDeep
+		}
 		operand, err := p.parseUnary()
+		p.exprDepth--
 		if err != nil {
 			return nil, err
 		}
